@@ -8,7 +8,7 @@ from __future__ import annotations
 
 import random
 
-from harness import core, disk, diskcheck, enc_vdi, record, tlaparse, tlc, tracecheck
+from harness import core, disk, diskprop, enc_vdi, record, tlc
 
 LEVEL = "model_checking"
 
@@ -31,7 +31,7 @@ def _open_vdi(vf, parent):
     return VDI(vf, parent=parent() if parent else None)
 
 
-def build(img, prof, P=None):
+def build(img, prof, P=None, size_bytes=None):
     """Concretise abstract image -> disk.Built."""
     bs = prof["block_size"]
     n = img["n"]
@@ -39,60 +39,26 @@ def build(img, prof, P=None):
     doff = None
     if prof.get("data_gap"):
         doff = (bo + 4 * n + 511) // 512 * 512 + prof["data_gap"]
+    if P is None:
+        P = n + 1
     vf, cell, data_offset, size_b = enc_vdi.build(img, block_size=bs, blocks_offset=bo, data_offset=doff, P=P)
+    if size_bytes is not None:
+        size_b = size_bytes
+        ents = [img["map"][i] for i in range(n)]
+        hdr = enc_vdi.header(bo, data_offset, size_b, bs, n, sum(1 for e in ents if e >= 0))
+        vf._ext[0] = (0, len(hdr), "bytes", hdr)
     parent = None
     pbase = 0
     if img["parent"]:
         # a real VDI parent: identity map, every block allocated, content = pat(PARENT_F, file offset)
         pimg = {"n": n, "cb": img["cb"], "map": {i: i for i in range(n)}, "size": img["size"], "parent": False}
-        pvf, _, pdo, _ = enc_vdi.build(pimg, block_size=bs, blocks_offset=512, file_id=disk.PARENT_F)
-        pbase = pdo
+        pvf, _, pbase, _ = enc_vdi.build(pimg, block_size=bs, blocks_offset=512, file_id=disk.PARENT_F)
         parent = lambda: _open_vdi(pvf, None)  # noqa: E731
-    b = disk.Built(open=lambda: _open_vdi(vf, parent), cell=cell, size=size_b, bases={0: data_offset}, files=[vf],
-                   has_parent=bool(img["parent"]), note=dict(prof))
-    b.parent_base = pbase
-    return b
+    return disk.Built(open=lambda: _open_vdi(vf, parent), cell=cell, size=size_b, bases={0: data_offset}, files=[vf],
+                      has_parent=bool(img["parent"]), note={k: v for k, v in prof.items() if k != "when"}, parent_base=pbase)
 
 
-def _states(ctx, cfg):
-    r = tlc.run("Vdi", cfg, dump=True)
-    if r.violated:
-        ctx.spec_violation("Vdi", cfg, r)
-    ctx.add_tlc(cfg, r, open(f"{tlc.SPEC_DIR}/cfg/{cfg}").readline().strip())
-    sts = list(tlaparse.iter_dump(r.dump))
-    tlc.cleanup(r)
-    if not sts:
-        raise core.MachineryError("empty dump")
-    return sts
-
-
-def replay_A(ctx, rng, thorough):
-    cfg = "Vdi_img4.cfg" if thorough else "Vdi_img.cfg"
-    sts = _states(ctx, cfg)
-    profs = PROFILES_THOROUGH if thorough else PROFILES_QUICK
-    P = 4 if thorough else 3
-
-    def work(sub, chunk, idx):
-        r = random.Random(ctx.seed * 1000003 + idx)
-        for st in chunk:
-            img, view = st["img"], st["view"]
-            for prof in profs:
-                sel = prof.get("sel", 1)
-                if sel > 1 and r.randrange(sel):
-                    continue
-                b = build(img, prof, P=P)
-                diskcheck.check_image(sub, "vdi", img, view, b, r, full=prof["full"],
-                                      attrs={"block_size": prof["block_size"], "parent": img["parent"]},
-                                      cap=48 if not thorough else 80)
-                sub.extra["images_replayed"] = sub.extra.get("images_replayed", 0) + 1
-                if len(sub.violations) >= sub.max_violations:
-                    return
-
-    core.parallel(ctx, work, sts)
-    return ctx.extra.get("images_replayed", 0)
-
-
-def make_trace(tid, rng, nops):
+def make_trace(tid, rng, nops=30):
     """Random real-geometry image + random op sequence on the real object -> trace dict."""
     bs = rng.choice([1 << 20, 1 << 20, 65536, 4096, 2 << 20])
     n = rng.randrange(2, 40 if bs <= (1 << 20) else 12)
@@ -107,22 +73,8 @@ def make_trace(tid, rng, nops):
     tail = rng.choice([0, 0, 512, bs // 2, bs - 512])
     img = {"n": n, "cb": 1, "map": {i: mp[i] for i in range(n)}, "size": n, "parent": parent}
     prof = {"block_size": bs, "blocks_offset": rng.choice([512, 1024, 4096])}
-    b = build(img, prof, P=npos)
-    # shrink the reported disk size below n*bs (size not a multiple of the block size)
     size_b = n * bs - tail
-    if tail:
-        vf, cell, data_offset, _ = enc_vdi.build({**img, "size": n}, block_size=bs, blocks_offset=prof["blocks_offset"], P=npos)
-        hdr = enc_vdi.header(prof["blocks_offset"], data_offset, size_b, bs, n, sum(1 for e in mp if e >= 0))
-        vf._ext[0] = (0, len(hdr), "bytes", hdr)
-        parent_open = None
-        pbase = 0
-        if parent:
-            pimg = {"n": n, "cb": 1, "map": {i: i for i in range(n)}, "size": n, "parent": False}
-            pvf, _, pbase, _ = enc_vdi.build(pimg, block_size=bs, blocks_offset=512, file_id=disk.PARENT_F)
-            parent_open = lambda: _open_vdi(pvf, None)  # noqa: E731
-        b = disk.Built(open=lambda: _open_vdi(vf, parent_open), cell=bs, size=size_b, bases={0: data_offset}, files=[vf],
-                       has_parent=parent, note=prof)
-        b.parent_base = pbase
+    b = build(img, prof, P=npos, size_bytes=size_b)
     s = b.open()
     fresh = b.open()
     rec = record.Recorder(s, size_b, probe=fresh.readoffset)
@@ -131,30 +83,12 @@ def make_trace(tid, rng, nops):
             "bases": [b.bases[0]], "pbase": b.parent_base, "events": rec.events}
 
 
-def traces_B(ctx, rng, ntraces, nops):
-    traces = []
-    for tid in range(1, ntraces + 1):
-        try:
-            traces.append(make_trace(tid, rng, nops))
-        except Exception as e:  # noqa: BLE001  (the real object raised mid-sequence)
-            import traceback
-            ctx.violation({"format": "vdi", "fail": "op-raised", "exc": type(e).__name__},
-                          {"kind": "trace-gen", "tid": tid, "error": repr(e), "tb": traceback.format_exc()[-1500:]})
-            if len(ctx.violations) >= ctx.max_violations:
-                break
-    for t in traces[:2]:
-        if len(ctx.samples) < ctx.max_samples + 2:
-            ctx.samples.append({"trace": {k: t[k] for k in ("fmt", "img", "cellB", "sizeB")}, "events": t["events"][:4]})
-    if traces:
-        tracecheck.judge(ctx, "TraceVdi", "TraceVdi.cfg", traces,
-                         lambda t: {"format": "vdi", "block_size": t["cellB"], "parent": t["img"]["parent"]}, label="random real-geometry")
-    ctx.evaluations += sum(len(t["events"]) for t in traces)
-    return traces
+def _attrs(img, prof):
+    return {"block_size": prof["block_size"], "parent": img["parent"]}
 
 
 def run(ctx):
     thorough = ctx.tier == "thorough"
-    rng = random.Random(ctx.seed * 7919 + 5)
     ctx.rule = ("A: every image enumerated by TLC from spec/Vdi.tla (all block maps over {unalloc, zero, position p}, "
                 "permuted placements, tail sizes, parent yes/no) x concretisation profiles x derived byte requests; "
                 "non-trivial = request crosses a source change (kind change or placement discontinuity), distinct by "
@@ -162,17 +96,14 @@ def run(ctx):
     ctx.assumptions = ["encoder harness/enc_vdi.py follows VDICore.h", "TLC explores the stated constants exhaustively",
                        "dissect.util AlignedStream is part of the system under test"]
     # 1. design level: TLC checks the transcription of VDI._read against GuestView for every image and request
-    cfg = "Vdi_big.cfg" if thorough else "Vdi_small.cfg"
-    r = tlc.run("Vdi", cfg, coverage=True)
-    ctx.add_tlc(cfg, r, open(f"{tlc.SPEC_DIR}/cfg/{cfg}").readline().strip())
-    if r.violated:
-        ctx.spec_violation("Vdi", cfg, r)
-    elif r.distinct < 100:
-        raise core.MachineryError("Vdi model unexpectedly small (vacuous?)")
-    # 2. A
-    replay_A(ctx, rng, thorough)
-    # 3. B
-    traces_B(ctx, rng, 400 if thorough else 60, 40 if thorough else 25)
+    diskprop.tlc_check(ctx, "Vdi", "Vdi_big.cfg" if thorough else "Vdi_small.cfg", need_actions=("Next",))
+    # 2. A: replay every enumerated image
+    sts = diskprop.dump_states(ctx, "Vdi", "Vdi_img4.cfg" if thorough else "Vdi_img.cfg")
+    diskprop.replay_states(ctx, "vdi", sts, PROFILES_THOROUGH if thorough else PROFILES_QUICK, build,
+                           attrs_of=_attrs, cap=80 if thorough else 48)
+    # 3. B: traces from the real code validated by TLC
+    diskprop.traces(ctx, "vdi", lambda tid, r: make_trace(tid, r, 40 if thorough else 25), 400 if thorough else 64,
+                    "TraceVdi", "TraceVdi.cfg", lambda t: {"format": "vdi", "block_size": t["cellB"], "parent": t["img"]["parent"]})
 
 
 def replay(ctx, body):
@@ -183,20 +114,20 @@ def replay(ctx, body):
         print(r.output[-2000:])
         return not r.violated
     if d.get("kind") in ("trace", "trace-gen"):
-        print("trace replays re-run the generator with the recorded seed")
-        rng = random.Random(body["seed"] * 7919 + 5)
-        traces_B(ctx, rng, 60, 25)
-        return not ctx.violations
+        tid = d.get("tid") or d["trace"]["tid"]
+        from harness import tracecheck
+        t = make_trace(tid, random.Random(body["seed"] * 9176 + tid), 40 if body.get("tier") == "thorough" else 25)
+        v, _ = tracecheck.validate("TraceVdi", "TraceVdi.cfg", [t])
+        print(v)
+        return v[tid][0] == "accept"
     img = d["img"]
     img["map"] = {int(k): v for k, v in img["map"].items()}
-    prof = d["profile"]
-    b = build(img, prof, P=4)
-    i2 = {"n": img["n"], "cb": img["cb"], "map": img["map"], "size": img["size"], "parent": img["parent"]}
-    # recompute the view through TLC-independent means is not allowed: re-derive from the spec via a one-image dump
-    sts = [s for s in _states(ctx, "Vdi_img4.cfg" if img["n"] == 4 else "Vdi_img.cfg") if s["img"] == i2]
+    cfg = "Vdi_img4.cfg" if img["n"] == 4 else "Vdi_img.cfg"
+    sts = [s for s in diskprop.dump_states(ctx, "Vdi", cfg) if s["img"] == img]
     if not sts:
         print("image not in the enumerated set")
         return True
-    rng = random.Random(0)
+    from harness import diskcheck
+    b = build(img, d["profile"])
     o, n = d.get("read", [0, b.size])
-    return diskcheck.check_image(ctx, "vdi", img, sts[0]["view"], b, rng, full=False, attrs={}, extra_requests=[(o, n)])
+    return diskcheck.check_image(ctx, "vdi", img, sts[0]["view"], b, random.Random(0), full=False, attrs={}, extra_requests=[(o, n)])
